@@ -20,6 +20,11 @@ def texts():
     # (rewritten files start with an 18-line prologue, so the line has to lie beyond it)
     t["plain"] = "function boom(a, b) {\n" + "  a;\n\n  b;\n" * 8 + "  throw new Error('plain');\n}\n"
     t["err"] = "function boom( {\n"
+    # the throw site is on the very first line of the original
+    t["oneline"] = "function boom(a, b) { const s = a + b; throw new Error('one ' + s); }\n"
+    # the only link between the stack and the rewritten file is an eval origin: the function comes out of an eval
+    # in the file and is called from elsewhere
+    t["evalret"] = "function boom(a, b) {\n  const s = a + b;\n\n\n  return eval(\"(function(){ throw new Error('r' + s) })\");\n}\n"
     # a byte order mark is part of the caller's text
     t["bomplain"] = "\ufeff" + t["plain"]
     t["bommod"] = "\ufeff" + t["modA"]
@@ -33,8 +38,8 @@ def texts():
 
 
 CLASSES = {"modA": "modified", "modB": "modified", "plain": "notmodified", "err": "error", "chain": "modified", "evalv": "modified",
-           "bomplain": "notmodified", "bommod": "modified"}
-THROW_LINE = {"modA": 5, "modB": 9, "plain": 26, "chain": 4 + 100, "evalv": 5, "bomplain": 26, "bommod": 5}
+           "bomplain": "notmodified", "bommod": "modified", "oneline": "modified", "evalret": "modified"}
+THROW_LINE = {"modA": 5, "modB": 9, "plain": 26, "chain": 4 + 100, "evalv": 5, "bomplain": 26, "bommod": 5, "oneline": 1, "evalret": 5}
 
 
 def expected_lines(file):
